@@ -25,7 +25,8 @@ failed) were repaired in /repo (1e2fd75: refused; 21b8ab5: 0 bytes) and need no 
 an element without length: 7f7ac10, dc05857) any more; F20 was repaired for the in-place growth path only (998a325) and stays a condition of
 `Hopen` for the remaining paths (space beyond the recomputed `f_end_off` handed out again by `HPgetdiskblock`).
 A failing call is always admitted by `specStep`: no liveness is claimed except `hlpread_ok`; the reads that fail
-although a byte array would deliver (F26, and `Htrunc` refused on linked-block elements) are engine findings. Tied to the C by the engine only (modelled and
+although a byte array would deliver (`Htrunc` refused on linked-block elements) are engine findings; F26 (reads of reserved,
+never written space failed with DD caching on) was repaired by af826f2: `File.hpRead` delivers zeros there. Tied to the C by the engine only (modelled and
 driven, no theorem): `Hcache(FALSE)` write-through mode, `Hdupdd`, `Hlength/Hgetelement/Hputelement`. Not modelled:
 int32 ranges (the model is unbounded), allocation failure, the bytes inside block-table elements (the tables live in
 `File.links`; the file holds zeros there, which no call on a user element can observe — only an F19-dangling id can),
